@@ -302,9 +302,7 @@ func (tr *Tr) envFor(fr *Frame, li *loopInfo, st *State) *Env {
 			env.macros[l.Label] = l.Expr
 		}
 	}
-	for k, v := range fr.params {
-		env.vars[k] = v
-	}
+	// parameters are resolved like other locals (a reassigned parameter denotes its current value)
 	env.allocAtEntry = tr.get(env.old, "alloc")
 	return env
 }
@@ -389,6 +387,11 @@ func (tr *Tr) havocLoop(fr *Frame, li *loopInfo) {
 	allocs := false
 	events := false
 	all := false
+	type slotHavoc struct {
+		key      string
+		reg, off *Term
+	}
+	var slots []slotHavoc
 	newOnly := map[string]bool{} // keys written only in regions allocated during the loop
 	typed := map[string][]types.Type{} // keys written only in objects allocated with one of these struct types
 	addRoot := func(v ssa.Value, keys []string) {
@@ -467,7 +470,16 @@ func (tr *Tr) havocLoop(fr *Frame, li *loopInfo) {
 		for _, in := range b.Instrs {
 			switch x := in.(type) {
 			case *ssa.Store:
-				addRoot(x.Addr, keysOf(x.Val.Type()))
+				// a store to a field at a constant offset of an object known before the loop: only those slots change
+				if root, off, ok := constFieldPath(x.Addr); ok && definedOutside(root, li) && isPtr(root.Type()) {
+					rv := tr.val(root)
+					ls := shape(x.Val.Type())
+					for i, lf := range ls {
+						slots = append(slots, slotHavoc{key: heapKey(lf.S), reg: rv[0], off: f.AddC(rv[1], int64(off+i))})
+					}
+				} else {
+					addRoot(x.Addr, keysOf(x.Val.Type()))
+				}
 			case *ssa.Alloc, *ssa.MakeSlice, *ssa.MakeMap, *ssa.MakeInterface, *ssa.MakeClosure, *ssa.Convert:
 				allocs = true
 			case *ssa.MapUpdate:
@@ -549,6 +561,12 @@ func (tr *Tr) havocLoop(fr *Frame, li *loopInfo) {
 			continue
 		}
 		tr.setInner(fr.st, r.key, r.reg, f.Fresh("Rloop"+r.key, ArrS(S64, heapElemSort(r.key))))
+	}
+	for _, s := range slots {
+		if fullKeys[s.key] {
+			continue
+		}
+		tr.heapStore(fr.st, heapElemSort(s.key), s.reg, s.off, f.Fresh("Sloop"+s.key, heapElemSort(s.key)))
 	}
 	if allocs {
 		tr.bumpAlloc(fr.st)
@@ -795,5 +813,39 @@ func (tr *Tr) autoInvariantsKeep(fr *Frame, li *loopInfo, back map[ssa.Value]Val
 			continue
 		}
 		tr.obligeAt("inv-auto", fmt.Sprintf("L%d.%d", li.ord, i), pos, edge, a.mk(v), "candidate counter invariant preserved: "+a.desc+" (no wrap-around)")
+	}
+}
+
+// constFieldPath: addr = &root.f1.f2... (FieldAddr / constant IndexAddr on arrays only): root pointer and constant slot offset.
+func constFieldPath(addr ssa.Value) (ssa.Value, int, bool) {
+	off := 0
+	v := addr
+	for {
+		switch x := v.(type) {
+		case *ssa.FieldAddr:
+			st := x.X.Type().Underlying().(*types.Pointer).Elem().Underlying().(*types.Struct)
+			off += fieldOffset(st, x.Field)
+			v = x.X
+		case *ssa.IndexAddr:
+			pt, ok := x.X.Type().Underlying().(*types.Pointer)
+			if !ok {
+				return nil, 0, false
+			}
+			arr, ok := pt.Elem().Underlying().(*types.Array)
+			if !ok {
+				return nil, 0, false
+			}
+			c, ok := x.Index.(*ssa.Const)
+			if !ok || c.Value == nil {
+				return nil, 0, false
+			}
+			off += int(c.Int64()) * nleaves(arr.Elem())
+			v = x.X
+		default:
+			if v == addr {
+				return nil, 0, false // a bare pointer store: handled by the region rules
+			}
+			return v, off, true
+		}
 	}
 }
